@@ -286,6 +286,16 @@ export class Env {
 
   normTypeof(t) {
     const d = this.decls.get(t.name);
+    // the value an enum declaration creates: an object with one property per member
+    if (d && d.d === "enum") {
+      let cur = { c: "obj", props: d.members.map((m) => ({ name: m.name, t: C.lit(m.v), opt: false })), index: null };
+      for (const seg of t.path) {
+        const p = cur.c === "obj" && cur.props.find((x) => x.name === seg);
+        if (!p) unsup("typeof path missing");
+        cur = p.t;
+      }
+      return cur;
+    }
     if (!d || d.d !== "const") unsup("typeof of non-const");
     let cur = this.exprType(d.expr, d.asConst);
     for (const seg of t.path) {
